@@ -598,3 +598,53 @@ std_harness!(c29_drain_on_commit, {
     std::mem::forget(l);
     std::mem::forget(cfg);
 });
+
+// ------------------------------------------------------------------------------------------
+// C01/C02: a step-down that does NOT change the term must not forget the vote of that term.
+// Real `Raft::handle_internal_event(BecomeFollower)` on a Candidate that has voted for itself in its current term
+// (exactly the state `CandidateState::tick` -> `vote_myself` leaves) -- or on a Leader (self vote, committed).
+// Afterwards the hard state must still record a vote of the current term; otherwise `handle_vote_request`
+// (c01_vote_kernel: no recorded vote + equal term => grant) hands out a SECOND vote in the same term.
+// ------------------------------------------------------------------------------------------
+fn stepdown_keeps_vote(as_leader: bool) {
+    let cfg = shared_default_config();
+    let mut raft = mk_raft(cfg.clone());
+    let term: u64 = kani::any();
+    let f = FollowerState::<VT>::new(1, cfg.clone(), Some(HardState { current_term: term, voted_for: None }), None);
+    let mut c = CandidateState::<VT>::from(&f);
+    c.vote_myself().unwrap();
+    if as_leader {
+        let mut l = LeaderState::<VT>::from(&c);
+        let _ = l.update_voted_for(d_engine_proto::server::election::VotedFor { voted_for_id: 1, voted_for_term: term, committed: true });
+        raft.role = RaftRole::Leader(Box::new(l));
+        std::mem::forget(c);
+    } else {
+        raft.role = RaftRole::Candidate(Box::new(c));
+    }
+    std::mem::forget(f);
+    let before = vh::role_state(&raft.role).shared_state().hard_state;
+    assert!(before.voted_for.map_or(false, |v| v.voted_for_id == 1 && v.voted_for_term == term), "harness: self vote recorded");
+    let r = run_ready(raft.handle_internal_event(InternalEvent::BecomeFollower(None)));
+    std::mem::forget(r);
+    let after = vh::role_state(&raft.role).shared_state().hard_state;
+    kani::cover!(raft.role.as_i32() == d_engine_proto::common::NodeRole::Follower as i32, "stepped down to follower");
+    assert!(after.current_term == term, "C02:term_changed_by_step_down");
+    assert!(after.voted_for.map_or(false, |v| v.voted_for_term == term && v.voted_for_id == 1), "C01:vote_of_the_current_term_forgotten_on_same_term_step_down");
+    std::mem::forget(raft);
+    std::mem::forget(cfg);
+}
+#[kani::proof]
+#[kani::stub(std_catch_unwind, cu)]
+#[kani::stub(tracing::level_filters::LevelFilter::current, stub_level_off)]
+#[kani::stub(tracing::callsite::DefaultCallsite::register, stub_callsite_register)]
+#[kani::stub(tokio::task::coop::poll_proceed, stub_poll_proceed)]
+#[kani::stub(std::time::Instant::now, fixed_std_now)]
+#[kani::stub(tokio::time::Instant::now, fixed_tokio_now)]
+#[kani::stub(vh::ElectionTimer::random_duration, fixed_random_duration)]
+#[kani::stub(std::hash::RandomState::new, stub_random_state_new)]
+#[kani::stub(std::fmt::format, stub_format)]
+#[kani::stub(std::io::_print, stub_print)]
+#[kani::unwind(2)]
+pub fn c01_candidate_stepdown_keeps_vote() {
+    stepdown_keeps_vote(false);
+}
